@@ -1,5 +1,6 @@
 //! vpcheck: bounded exhaustive checks of the wow_srp properties. See /verif/DESIGN.md.
 
+mod c04;
 mod c07_c08;
 mod c09;
 mod c10;
@@ -47,6 +48,7 @@ fn main() {
             };
             let seed: u64 = std::env::var("VERIF_SEED").ok().and_then(|s| s.parse().ok()).unwrap_or(0);
             let code = match args[2].as_str() {
+                "C04" => c04::run(tier, seed),
                 "C07" => c07_c08::run::<c07_c08::Vanilla>(tier, seed),
                 "C08" => c07_c08::run::<c07_c08::Tbc>(tier, seed),
                 "C09" => c09::run(tier, seed),
